@@ -23,3 +23,10 @@ def prefixSums : Rat → List Rat → List Rat
 def sumRat (l : List Rat) : Rat := l.foldl (· + ·) 0
 
 end Labella
+
+namespace Labella
+
+/-- the number a `"%.df"` rendering denotes: `x` rounded to `d` decimals (half to even on the exact value) -/
+def fixedValue (d : Nat) (x : Rat) : Rat := (roundHalfEven (x * (10 : Rat) ^ d) : Int) / (10 : Rat) ^ d
+
+end Labella
